@@ -13,7 +13,8 @@ from vf import kfacrun as K
 from vf import oracles as O
 from vf.digest import digest as _dg
 
-SCHED = {'damping': ['cyc', [2.0, 0.5, 1.5]],
+SCHED = {'factor_update_steps': ['cyc', [2, 0.5, 1, 2, 1]],
+         'damping': ['cyc', [2.0, 0.5, 1.5]],
          'inv_update_steps': ['cyc', [2, 0.5, 1]],
          'factor_decay': ['cyc', [0.5, 1.25, 1.0]]}
 
